@@ -22,3 +22,4 @@ import Spydr.Edif.Props.C05
 #print axioms Spydr.Edif.C03.edif_roundtrip_partial
 #print axioms Spydr.Edif.C03.readCell_ports
 #print axioms Spydr.Edif.C03.readCell_cables
+#print axioms Spydr.Edif.C03.edif_roundtrip_cell
